@@ -900,7 +900,7 @@ class ReadAccessResultElement(Sequence):
 class ReadAccessResult(Sequence):
     sequenceElements = \
         [ Element('objectIdentifier', ObjectIdentifier, 0)
-        , Element('listOfResults', SequenceOf(ReadAccessResultElement), 1)
+        , Element('listOfResults', SequenceOf(ReadAccessResultElement), 1, True)
         ]
 
 class ReadPropertyMultipleACK(ComplexAckSequence):
